@@ -59,6 +59,7 @@ def _failed_payloads_summary(ctx):
         arg = c.args[0]
         elt = arg.elt if isinstance(arg, ast.ListComp) else (arg if isinstance(arg, ast.Tuple) else None)
         good = False
+        res_loop = None
         if isinstance(elt, ast.Tuple) and len(elt.elts) == 2 and isinstance(elt.elts[1], ast.Name):
             val = elt.elts[1].id
             # find the for loop destructuring (flag, val)
@@ -78,8 +79,9 @@ def _failed_payloads_summary(ctx):
                                     src_ok = True
                         if src_ok and (flag, False) in facts[n.id]:
                             good = True
+                            res_loop = m
         # ... and for EVERY failed result: inside the result loop the statement depends on the flag alone
-        loops = [m for m in cf.nodes if m.kind == "for" and n.id in cf.reach([m.id], avoid=[t for t, lab in cf.succ[m.id] if lab == ("iter", False)])]
+        loops = [res_loop] if res_loop is not None else []
         if loops:
             lbody = cf.reach([loops[-1].id], avoid=[t for t, lab in cf.succ[loops[-1].id] if lab == ("iter", False)])
             deps = sorted(norm(t.stmt.test) for t, lab in cf.control_deps_transitive(n.id, within=lbody) if t.kind == "test")
